@@ -39,6 +39,10 @@ func (t *tlInfo) fieldKey(f *types.Var) string { return "field:TaskLane." + f.Na
 // chanRole classifies a channel value by the field it was loaded from.
 func (t *tlInfo) chanRole(v ssa.Value) string {
 	org := sx.Origins(v)
+	if len(org) != 1 {
+		// a channel variable that is sometimes the lane's channel and sometimes something else (nil, another channel)
+		return "other:" + keys(org)
+	}
 	switch {
 	case t.Buffered != nil && org[t.fieldKey(t.Buffered)]:
 		return "buffered"
